@@ -632,6 +632,36 @@ def run_case(case, acc):
     acc.case(case, nontrivial(case, tmp), viols)
 
 
+def run_threads_case(cases, seed, acc):
+    """Four threads ask cmdline / environ / exe / cwd / name of *different* simulated processes at once (static table)."""
+    from vlib import concur
+    env = setup()
+    ps, vkernel, ProcTable, tmp = env["ps"], env["vkernel"], env["ProcTable"], env["tmp"]
+    t = ProcTable(btime=1_700_000_000)
+    t.spawn(1, 1, ppid=0, comm=b"init")
+    pids = []
+    for k, case in enumerate(cases):
+        pid = 400 + k
+        p = t.spawn(pid, 4242 + k, ppid=1, comm=_b(case["comm"]))
+        p.cmdline = render_cmdline(case["cmd"], tmp)
+        p.environ = render_environ(case["env"])
+        p.exe = render_link(case["exe"], tmp)
+        p.cwd = render_link(case["cwd"], tmp)
+        pids.append(pid)
+    vk = vkernel.VK()
+    vk.table = t
+    vk.mount("/vproc", t)
+    with vk:
+        jobs = {}
+        for pid in pids:
+            for m in ("cmdline", "environ", "exe", "cwd", "name"):
+                jobs[f"{m}@{pid}"] = lambda pid=pid, m=m: getattr(ps.Process(pid), m)()
+        _b2, errors, wrong = concur.concurrent_vs_sequential(jobs, seed, calls=60)
+    acc.count("call_path_comparisons", 240)
+    acc.count("concurrent_calls_compared", 240)
+    acc.case(dict(kind="threads", seed=seed), True, concur.violations(errors, wrong))
+
+
 # ---- live kernel: real children with hostile argv / environment / names, deleted exe and cwd -----------------------
 
 def run_live(shard, acc):
@@ -771,6 +801,7 @@ def plan(tier, seed):
     for s, c in harness.split_range(n, 15 if tier == "quick" else 47):
         shards.append(dict(kind="gen", seed=seed, start=s, count=c))
     shards.append(dict(kind="live"))
+    shards.append(dict(kind="threads", seed=seed, count=15 if tier == "quick" else 400))
     return shards
 
 
@@ -786,9 +817,16 @@ def run_shard(shard):
             run_case(gen_case(harness.rng_for(shard["seed"], "c12", i)), acc)
     elif shard["kind"] == "live":
         run_live(shard, acc)
+    elif shard["kind"] == "threads":
+        for i in range(shard["count"]):
+            cs = [dict(gen_case(harness.rng_for(shard["seed"], "c12t", i, k)), zombie=False) for k in range(4)]
+            run_threads_case(cs, shard["seed"] * 7919 + i, acc)
     elif shard["kind"] == "cases":
         for case in shard["cases"]:
-            if case.get("kind") == "live":
+            if case.get("kind") == "threads":
+                cs = [dict(gen_case(harness.rng_for(case["seed"] // 7919, "c12t", case["seed"] % 7919, k)), zombie=False) for k in range(4)]
+                run_threads_case(cs, case["seed"], acc)
+            elif case.get("kind") == "live":
                 run_live({}, acc)
             else:
                 run_case(case, acc)
